@@ -515,8 +515,42 @@ def check_cursor_successor(ctx, model):
             ctx.ob("C19-R8", "%s|exclusive-bound" % q, excl and not incl, "cursor of %s wrapped in Bound::ExclusiveRaw: %s" % (p.split("::")[-1], excl), uv.where())
 
 
+def check_simulation_visits_every_hop(ctx, model):
+    """R7 (completeness of the validation): add_swap_routes accepts a route when simulate_swap_operations succeeds, and the
+    per-hop factory lookup lives inside that function's loop -- so the loop must visit EVERY operation: its only exits are the
+    iterator running out and an error. An early `break` (say, once the running amount is zero) leaves later hops unchecked."""
+    p = "terraswap_router::contract::simulate_swap_operations"
+    v = ctx.view(p, "C19-R7")
+    if v is None:
+        return
+    nexts = v.calls_to(r"as std::iter::Iterator>::next$")
+    oks = set(ok_value_blocks(v))
+    if not nexts or not oks:
+        ctx.missing("C19-R7", "operation loop / Ok return of %s" % p)
+        return
+    # edges taken when the iterator is exhausted: the None arm of the switch on next()'s result
+    none_edges, body_starts = [], []
+    with v.opaque(r"Iterator>::next$"):
+        for b, c, _ in switch_conds(v):
+            if c.kind == "discr" and (c.enum or "").endswith("option::Option"):
+                os_ = v.origins_of_place(c.pl, at=c.at)
+                if os_ and all(o.kind == "call" and o.a.endswith("Iterator>::next") for o in os_):
+                    inv = {name: val for val, name in c.variants.items()}
+                    t = v.blocks[b]["t"]
+                    explicit = {val: tgt for val, tgt in t["targets"]}
+                    ne = (b, explicit.get(inv.get("None"), t["otherwise"]))
+                    none_edges.append(ne)
+                    body_starts += [tgt for _, tgt in v.edges_from(b) if (b, tgt) != ne]
+    leak = set()
+    for bs in body_starts:
+        leak |= v.reachable(bs, cut_edges=none_edges) & oks
+    ctx.ob("C19-R7", "%s|every-hop-visited" % p, bool(none_edges) and not leak,
+           "Ok return reachable from the loop body without the iterator running out: %s" % (sorted(leak) or "no"), v.where())
+
+
 def run(ctx):
     model = ctx.model()
+    check_simulation_visits_every_hop(ctx, model)
     check_key_fns(ctx, model)
     check_cursor_successor(ctx, model)
     check_registry_keys(ctx, model)
